@@ -73,6 +73,7 @@ class Run:
         self.results = []
         self.slots = threading.BoundedSemaphore(int(os.environ.get('VERIF_JOBS', NCPU)))
         self.heavy = threading.BoundedSemaphore(int(os.environ.get('VERIF_HEAVY', 3)))
+        self.slot_lock = threading.Lock()
         self.unit_hashes = {}
         self.src_dirs = {}
         self.extra_assumptions = []
@@ -197,12 +198,13 @@ class Run:
 
     def run_portfolio(self, q, qdir, allgb):
         procs = {}
-        t0 = time.time()
         nslots = len(q.backends)
-        for _ in range(nslots):
-            self.slots.acquire()
         if q.slow:
             self.heavy.acquire()
+        with self.slot_lock:          # acquire all slots of a portfolio atomically (no hold-and-wait)
+            for _ in range(nslots):
+                self.slots.acquire()
+        t0 = time.time()
         try:
             for b in q.backends:
                 out = open(os.path.join(qdir, 'out.%s.txt' % b), 'w')
